@@ -122,6 +122,7 @@ Definition frame_of (d : dstate) (e : event) (m : smsg) : frame :=
   | SData => FData (ev_payload e)
   | SCloseAnnounce => FClose true
   | SCloseConfirm => FClose false
+  | SUnknown => FUnknown
   end.
 
 Definition close_args (e : event) (k : ccode) : N * bool :=
